@@ -437,3 +437,10 @@ from pyvc.api import UNITS as _UNITS
 for _u in list(_UNITS.get("C14", [])):
   if _u.name.startswith("ipv4_with_") and _u.name.endswith("_option_bytes_udp"):
     unit(P, target=_u.target, name="a_rewritten_" + _u.name + "_keeps_valid_lengths_and_checksum")(_u.fn)
+
+# ... and on the checksum routine itself being the RFC 1071 sum for buffers of any length (C14 proof, shared): a rewritten frame
+# is emitted with whatever that routine returns (a sixth-round seeded change dropped its second carry fold)
+import contracts.c14_checksum as _K14   # noqa
+for _u in list(_UNITS.get("C14", [])):
+  if _u.name.startswith("checksum_rfc1071_"):
+    unit(P, target=_u.target, name="rewritten_frames_are_summed_by_" + _u.name)(_u.fn)
